@@ -288,6 +288,7 @@ def mb_cases():
                 for eager in (True, False):
                     for op in MB_OPS:
                         yield {"multibase": {"frozen_base": frozen_base, "order": order, "child": child, "eager": eager}, "op": op}
+                        yield {"multibase": {"frozen_base": frozen_base, "order": order, "child": child, "eager": eager, "via_plain": True}, "op": op}
 
 
 def run_multibase(ctx, case):
@@ -306,6 +307,12 @@ def run_multibase(ctx, case):
 
     A = mk("A", "a", 1, cfg["frozen_base"] == "A")
     B = mk("B", "b", 2, cfg["frozen_base"] == "B")
+    if cfg.get("via_plain"):
+        # the frozen spec base is reached only through an undecorated intermediate class
+        if cfg["frozen_base"] == "A":
+            A = type("MidA", (A,), {"__module__": "vf.generated"})
+        else:
+            B = type("MidB", (B,), {"__module__": "vf.generated"})
     bases = (A, B) if cfg["order"] == "AB" else (B, A)
     ns = {"__module__": "vf.generated"}
     if cfg["child"] == "spec":
